@@ -97,3 +97,27 @@ Lemma reach_put_succeeds cp ops0 k v :
   0 <= vsz v <= cap c ->
   exists ev cbs, snd (step c (Put k v)) = OPut ev cbs.
 Proof. intros Hcp Hwf0 c. apply put_succeeds. now apply invariant_all_histories. Qed.
+
+(* ------------------------------------------------------------------ *)
+(* a hit makes the entry the most recently used one *)
+
+Lemma get_hit_moves_to_front c k x cbs :
+  inv c -> snd (step c (Get k)) = OVal (Some x) cbs ->
+  exists v, vid v = x /\ rfind (abs_list (ll c)) k = Some v /\
+    abs_list (ll (fst (step c (Get k)))) = (k, v) :: rremove (abs_list (ll c)) k.
+Proof.
+  intros Hi Hg. destruct (step_sim _ _ (Get k) (R_abs c Hi) I) as [HR Hm].
+  rewrite Hg in Hm. destruct HR as [_ [_ [_ Hl]]]. rewrite <- Hl. clear Hl.
+  cbn [ref_step abs_state rl] in *.
+  destruct (rfind (abs_list (ll c)) k) as [v|] eqn:F; simpl in Hm.
+  - apply andb_true_iff in Hm as [H1 _]. exists v. repeat split; auto. lia.
+  - discriminate.
+Qed.
+
+Lemma reach_get_hit_moves_to_front cp ops0 k x cbs :
+  0 <= cp < two64 -> Forall wf_op ops0 ->
+  let c := fst (run (empty cp) ops0) in
+  snd (step c (Get k)) = OVal (Some x) cbs ->
+  exists v, vid v = x /\ rfind (abs_list (ll c)) k = Some v /\
+    abs_list (ll (fst (step c (Get k)))) = (k, v) :: rremove (abs_list (ll c)) k.
+Proof. intros Hcp Hwf c. apply get_hit_moves_to_front. now apply invariant_all_histories. Qed.
